@@ -6,7 +6,7 @@
    Prop selects which step predicates are asserted, so that a rejection is attributed to
    one property:  C01 C02 C03 C04 C12 C13, or ALL.
    Deviations (named in DESIGN 3.4) are constants, FALSE in every registered check. *)
-EXTENDS VDictOps, Json, IOUtils, TLCExt
+EXTENDS VSystem, Json, IOUtils, TLCExt
 CONSTANTS Prop, DevAstralNul, DevStuck
 
 Rec == ndJsonDeserialize(IOEnv.TRACE)
